@@ -630,8 +630,11 @@ func parseTargets(s string) ([]Target, error) {
 // ---- syntactic classes of the recorded deviations --------------------------------------------
 
 // features names the constructs of a target set for which the streaming matcher is known to
-// deviate (ids of known_findings.json without the "C17-" prefix).
-func features(ts []Target) map[string]bool {
+// deviate (ids of known_findings.json without the "C17-" prefix), wherever they stand in a target
+// (also in front of a descent). descentDeviates: the matcher the code is compared with does not let
+// a descent match the node itself (Dev.descentNoSelf; repaired in /repo), so a target that ends in
+// a descent is a deviation of its own.
+func features(ts []Target, descentDeviates bool) map[string]bool {
 	m := map[string]bool{}
 	for _, tg := range ts {
 		for i, f := range tg {
@@ -651,7 +654,7 @@ func features(ts []Target) map[string]bool {
 			case 'f':
 				m["filter-first-only"] = true
 			case 'd':
-				if i == len(tg)-1 || tg[i+1].K == 'f' {
+				if descentDeviates && (i == len(tg)-1 || tg[i+1].K == 'f') {
 					m["trailing-descent"] = true
 				}
 			}
